@@ -149,6 +149,9 @@ func genC06(t *rapid.T) C06Case {
 			a.ProxyAudience = append(a.ProxyAudience, genAudienceValue(t, sp.Audience))
 		}
 	}
+	if rapid.IntRange(0, 5).Draw(t, "foreignCond") == 0 {
+		a.ForeignCond = rapid.SampledFrom([]int{1, 2, 4, 8, 16, 3, 12, 31}).Draw(t, "foreignBits")
+	}
 	finishC06(&c, func(err error) { t.Fatalf("harness: %v", err) })
 	return c
 }
@@ -157,6 +160,7 @@ func finishC06(c *C06Case, fail func(error)) {
 	g := gridGenuine(c.SP, 1+c.Others, c.Mode)
 	f := &g.Model.Assertions[0]
 	f.Audiences, f.OneTimeUse, f.HasProxy, f.ProxyCount, f.ProxyAudience = c.First.Audiences, c.First.OneTimeUse, c.First.HasProxy, c.First.ProxyCount, c.First.ProxyAudience
+	f.ForeignCond = c.First.ForeignCond
 	switch c.Window {
 	case "not-yet-valid":
 		f.NotBefore = h.S(c.SP.Now().Add(time.Minute).UTC().Format(time.RFC3339))
@@ -231,6 +235,15 @@ func checkC06(c C06Case) h.Outcome {
 		o.Classes = append(o.Classes, "empty-configured-uri")
 	}
 	info, err := c.SP.Build().RetrieveAssertionInfo(c.Encoded)
+	if c.First.ForeignCond != 0 {
+		// look-alike elements of a foreign namespace among the conditions: refusing the message is fine; when it is
+		// accepted they are not conditions and nothing of them may show below
+		o.NonTrivial = true
+		o.Classes = append(o.Classes, fmt.Sprintf("foreign-conditions:%d/accepted:%v", c.First.ForeignCond, err == nil))
+		if err != nil {
+			return o
+		}
+	}
 	if err != nil {
 		o.Violation = h.V("valid-rejected", "genuine response rejected: %v", err)
 		return o
@@ -358,6 +371,24 @@ func TestC06_Grid(t *testing.T) {
 			c2.First.Audiences = [][]string{first, {strings.Join(first, sep) + sep}, first}
 			finishC06(&c2, func(err error) { t.Fatalf("harness: %v", err) })
 			cases = append(cases, c2)
+		}
+	}
+	// look-alike elements of a foreign namespace among the conditions
+	for i, bits := range []int{1, 2, 4, 8, 16, 3, 5, 9, 24, 31} {
+		for j, withOwn := range []bool{false, true} {
+			sp := h.BaseSP()
+			c := C06Case{SP: sp, Mode: []string{"response", "assertions", "skip"}[(i+j)%3], Window: "in"}
+			if c.Mode == "skip" {
+				c.SP.Skip = true
+			}
+			c.First.ForeignCond = bits
+			c.First.Audiences = [][]string{{sp.Audience}}
+			c.First.HasProxy = withOwn || bits&1 != 0
+			if withOwn {
+				c.First.OneTimeUse, c.First.ProxyCount, c.First.ProxyAudience = true, h.S("2"), []string{"urn:a"}
+			}
+			finishC06(&c, func(err error) { t.Fatalf("harness: %v", err) })
+			cases = append(cases, c)
 		}
 	}
 	// configured URIs with pattern metacharacters: exact match, pattern-only match, plain miss
